@@ -126,6 +126,15 @@ func (s *SimOS) log(method string, failable bool, args ...any) (idx int, err err
 	return c.Seq, err
 }
 
+// SetBlockingStdin makes the standard input a stream whose reads wait, once
+// data is used up, until the stream is closed (a pipe nobody writes to). Call
+// it inside the bubble.
+func (s *SimOS) SetBlockingStdin(data string) {
+	s.mu.Lock()
+	defer s.mu.Unlock()
+	s.stdin = &stdFile{os: s, name: "stdin", data: []byte(data), block: make(chan struct{})}
+}
+
 // SetStdin replaces what the simulated standard input holds.
 func (s *SimOS) SetStdin(data string) {
 	s.mu.Lock()
@@ -914,6 +923,10 @@ type stdFile struct {
 	data []byte // stdin content
 	pos  int
 	out  []byte
+	// block, when set, makes Read wait once the content is used up, the way a
+	// pipe with no writer activity does, until the stream is closed
+	block     chan struct{}
+	blockOnce sync.Once
 }
 
 func (f *stdFile) Stat() (fs.FileInfo, error) {
@@ -930,6 +943,13 @@ func (f *stdFile) Read(p []byte) (int, error) {
 	f.os.mu.Lock()
 	defer f.os.mu.Unlock()
 	if f.pos >= len(f.data) {
+		if f.block != nil {
+			blk := f.block
+			f.os.mu.Unlock()
+			<-blk
+			f.os.mu.Lock()
+			return 0, fs.ErrClosed
+		}
 		return 0, io.EOF
 	}
 	n := copy(p, f.data[f.pos:])
@@ -948,6 +968,9 @@ func (f *stdFile) Write(p []byte) (int, error) {
 }
 
 func (f *stdFile) Close() error {
+	if f.block != nil {
+		f.blockOnce.Do(func() { close(f.block) })
+	}
 	_, err := f.os.log("Std.Close", true, f.name)
 	return err
 }
